@@ -252,7 +252,7 @@ func runCmd(args []string) {
 			cmd.Env = append(os.Environ(), "GOMAXPROCS=1")
 			if pi.Race {
 				rl := filepath.Join(scratch, fmt.Sprintf("race_%d", i))
-				cmd.Env = append(cmd.Env, "GORACE=halt_on_error=0 history_size=3 log_path="+rl, "VERIF_RACELOG="+rl)
+				cmd.Env = append(cmd.Env, "GORACE=halt_on_error=0 exitcode=0 history_size=3 log_path="+rl, "VERIF_RACELOG="+rl)
 			}
 			var so, se strings.Builder
 			cmd.Stdout, cmd.Stderr = &so, &se
